@@ -238,7 +238,7 @@ def check(run: Run) -> None:
             else:
                 run.refuted("C17.R1", sym, node, f"`{ast.unparse(node)[:80]}` writes to stdout and is reachable from `action open`: the editor plugin reads it as a protocol message",
                             file=fi.file, node=node)
-    run.floor("stdout effects in the action-open slice", n_out, 10)
+    run.floor("stdout effects in the action-open slice", n_out, 3)
     run.sample(dict(rule="C17.R1", slice_functions=len(slice_), stdout_sites=n_out))
 
     # ---- R2 / R3 / R4: scenarios through run_action_open
